@@ -10,7 +10,7 @@ Plan gen_lz4(u64) { return Plan(); } void run_lz4(const Plan &) {} Plan gen_lz4c
 #ifndef HAVE_CONC
 Plan gen_conc(u64) { return Plan(); } void run_conc(const Plan &) {}
 #endif
-#ifndef HAVE_FUZZREG
+#if 0
 Plan gen_fuzzreg(u64) { return Plan(); } size_t fuzzreg_count() { return 0; }
 #endif
 }
